@@ -28,6 +28,7 @@ import Apko.Proofs.Lemmas.FormatsPasswd
 import Apko.Proofs.Lemmas.FormatsIdbTable
 import Apko.Proofs.Lemmas.FormatsIdbTotal
 import Apko.Proofs.Lemmas.FormatsSortComplete
+import Apko.Proofs.Lemmas.FormatsSortBlowup
 import Apko.Proofs.Lemmas.FormatsSortNodup
 import Apko.Proofs.Lemmas.FormatsNoPanic
 import Apko.Proofs.Lemmas.FormatsSortIdem
@@ -584,6 +585,39 @@ theorem sortTarHeaders_idempotent (hs out : List FileRec) (ht : treeOK hs = true
     (h : sortHeaders hs = some out) :
     sortHeaders out = some out ∧ sortHeaders (hs.filter (emitted hs)) = some out :=
   ⟨sortHeaders_idem hs (treeOK_spec hs ht) hn out h, by rw [← h]; exact sortHeaders_kept hs (treeOK_spec hs ht)⟩
+
+/-! ## F16i: `sortTarHeaders` is not linear in its input -/
+
+/-- the full statement: `sortTarHeaders` emits at most as many records as it was given.  False (F16i). -/
+def SortLinear : Prop := ∀ (hs out : List FileRec), sortHeaders hs = some out → out.length ≤ hs.length
+
+/-- `sortTarHeaders_linear_partial`: it holds for tree-shaped header lists whose names are pairwise different -/
+theorem sortTarHeaders_linear_partial (hs out : List FileRec) (ht : treeOK hs = true) (hn : namesNodup hs = true)
+    (h : sortHeaders hs = some out) : out.length ≤ hs.length := by
+  obtain ⟨o, h1, h2⟩ := sortTarHeaders_perm hs ht hn
+  rw [h] at h1
+  cases h1
+  rw [h2.length_eq]
+  exact List.length_filter_le _ _
+
+example : treeOK sampleFiles = true ∧ namesNodup sampleFiles = true := by decide
+
+/-- … and fails as soon as one directory record that has children is listed twice: the chain
+a, a/b, a/b, a/b/c, a/b/c/f (5 headers) comes out as 7 records, the subtree of a/b twice -/
+theorem sortTarHeaders_linear_fails : ¬ SortLinear := by
+  intro h
+  have := h dupChain dupChain1 dupChain_sorted
+  revert this
+  decide
+
+/-- sorting what `sortTarHeaders` emitted (AddInstalledPackage with the files ParseInstalled read back) is not
+the identity for such an input: every level below the duplicated record doubles, 5 -> 7 -> 15 records, more than
+twice the first output; the input is in the class the driver attributes to F16i -/
+theorem sortTarHeaders_resort_grows :
+    ∃ hs o1 o2, dupDirWithChildren hs = true ∧ sortHeaders hs = some o1 ∧ sortHeaders o1 = some o2 ∧
+      hs.length = 5 ∧ o1.length = 7 ∧ o2.length = 15 ∧ 2 * o1.length ≤ o2.length ∧ o2 ≠ o1 :=
+  ⟨dupChain, dupChain1, dupChain2, dupChain_class.1, dupChain_sorted, dupChain1_sorted, by decide, by decide, by decide,
+    by decide, by decide⟩
 
 /-! ## `idb_write_read`, the part that holds -/
 
